@@ -315,6 +315,8 @@ def _fromkeys(lib, run, recv, args, kw):
         raise Unsupported('dict.fromkeys over %r' % (keys,))
     if isinstance(val, (Num, BoolV)):
         return run.st.alloc(MapO(s.term, {'': z3.K(Arm, real(val))}, {'': 'real'}))
+    if isinstance(val, NoneV):
+        return run.st.alloc(MapO(s.term, {}, {}))
     raise Unsupported('dict.fromkeys value %r' % (val,))
 
 
@@ -324,6 +326,8 @@ def _update(lib, run, recv, args, kw):
     o = _map(run, args[0])
     if o is None or set(o.cols) != set(m.cols):
         raise Unsupported('dict.update argument')
+    if not o.cols and z3.eq(o.keys, T.aempty):
+        return NONE
     a_ = z3.Const('a!upd', Arm)
     nm = m
     for c in m.cols:
@@ -390,6 +394,12 @@ def _append(lib, run, recv, args, kw):
         return NONE
     if isinstance(o, SeqO) and o.skind == 'R' and isinstance(x, Num):
         run.set_heap(recv.loc, SeqO('R', F('rappend', RSeq, Real, RSeq)(o.term, real(x))))
+        return NONE
+    if isinstance(o, ListO) and not o.items and isinstance(x, Num):
+        run.set_heap(recv.loc, SeqO('R', F('rappend', RSeq, Real, RSeq)(T.rempty, real(x))))
+        return NONE
+    if isinstance(o, ListO) and not o.items and isinstance(x, ArmV):
+        run.set_heap(recv.loc, SeqO('A', T.aappend(T.aempty, x.term)))
         return NONE
     if isinstance(o, ListO):
         run.set_heap(recv.loc, ListO(o.items + [x]))
@@ -557,8 +567,36 @@ def _cpu(lib, run, recv, args, kw):
     return Num(c)
 
 
+apply_bin = F('apply_binarizer', Opaque, Arm, Real, Real)
+_f = z3.Const('f', Opaque)
+_arm = z3.Const('arm', Arm)
+axiom('binarizer.range', forall([_f, _arm, _x], z3.Or(apply_bin(_f, _arm, _x) == 0, apply_bin(_f, _arm, _x) == 1),
+                                [apply_bin(_f, _arm, _x)]), ['apply_binarizer'], 'numpy')
+
+
 def call_opaque(lib, run, f, args, kwargs):
+    if f.what in ('callable', 'binarizer') and len(args) == 2 and isinstance(args[0], ArmV) and isinstance(args[1], Num):
+        # the user's binarizer: an uninterpreted function of (decision, reward) with values in {0, 1} (documented)
+        run.note('lib:binarizer is a pure function of (decision, reward) returning 0/1')
+        return Num(apply_bin(f.term, args[0].term, real(args[1])))
     raise Unsupported('call of opaque value %s' % f.what)
+
+
+@reg('np.fromiter')
+def _fromiter(lib, run, recv, args, kw):
+    g = args[0]
+    if isinstance(g, Lazy) and g.kind == 'genexp':
+        from .loops import eval_comprehension
+        saved = run.frames[-1].env
+        run.frames[-1].env = dict(g.env)
+        try:
+            v = eval_comprehension(run, g.node, 'list')
+        finally:
+            run.frames[-1].env = saved
+        s = lib.as_seq(run, v)
+        if s is not None:
+            return SeqV(s.kind, s.term)
+    raise Unsupported('np.fromiter argument')
 
 
 # ------------------------------------------------------------------------------------- random streams
@@ -727,3 +765,80 @@ def _ext(name, mk):
 
 _ext('draw_dirichlet', draw_dir)
 _ext('next_dirichlet', next_dir)
+
+
+# ------------------------------------------------------------------------------------------ distances
+def opaque_of(v):
+    """z3 term for a string-like value (metric names)"""
+    if isinstance(v, StrV):
+        return z3.Const('str:' + v.s, Opaque)
+    if isinstance(v, OpaqueV):
+        return v.term
+    raise Unsupported('expected a string, got %r' % (v,))
+
+
+row1 = F('row1', RSeq, Mat)
+_v = z3.Const('v', RSeq)
+axiom('row1', forall([_v], z3.And(mrows(row1(_v)) == 1, mcols(row1(_v)) == T.rlen(_v), mrow(row1(_v), 0) == _v),
+                     [row1(_v)]), ['row1'], 'numpy')
+fdist = F('fdist', Opaque, RSeq, RSeq, Real)            # scipy distance between two vectors under a metric
+cdistm = F('cdist', Opaque, Mat, Mat, Mat)
+_mt = z3.Const('mt', Opaque)
+_A, _B = z3.Consts('A B', Mat)
+axiom('cdist.shape', forall([_mt, _A, _B], z3.And(mrows(cdistm(_mt, _A, _B)) == mrows(_A),
+                                                  mcols(cdistm(_mt, _A, _B)) == mrows(_B)), [cdistm(_mt, _A, _B)]),
+      ['cdist'], 'numpy')
+axiom('cdist.at', forall([_mt, _A, _B, _i, _j], mat_at(cdistm(_mt, _A, _B), _i, _j) ==
+                         fdist(_mt, mrow(_A, _i), mrow(_B, _j)), [mat_at(cdistm(_mt, _A, _B), _i, _j)]),
+      ['cdist'], 'numpy')
+
+
+@reg('np.asarray', 'np.array')
+def _asarray(lib, run, recv, args, kw):
+    v = args[0]
+    if isinstance(v, (MatV,)):
+        return v
+    if isinstance(v, SeqV):
+        return SeqV(v.kind, v.term)
+    if isinstance(v, Ref):
+        o = run.deref(v)
+        if isinstance(o, SeqO):
+            return SeqV(o.skind, o.term)
+        if isinstance(o, ListO) and len(o.items) == 1 and isinstance(o.items[0], SeqV) and o.items[0].kind == 'R':
+            return MatV(row1(o.items[0].term))
+        if isinstance(o, ListO) and o.items and all(isinstance(x, ArmV) for x in o.items):
+            t = T.aempty
+            for x in o.items:
+                t = T.aappend(t, x.term)
+            return SeqV('A', t)
+    raise Unsupported('np.asarray(%r)' % (v,))
+
+
+@reg('scipy.spatial.distance.cdist')
+def _cdist(lib, run, recv, args, kw):
+    A, B = args[0], args[1]
+    metric = kw.get('metric', args[2] if len(args) > 2 else StrV('euclidean'))
+    if not (isinstance(A, MatV) and isinstance(B, MatV)):
+        raise Unsupported('cdist arguments')
+    if not run.spec_mode:
+        if run.branch(mcols(A.term) != mcols(B.term)):
+            raise PyRaise('ValueError', 'cdist: XA and XB must have the same number of columns')
+    return MatV(cdistm(opaque_of(metric), A.term, B.term))
+
+
+quantile = F('quantile', RSeq, Real, Real)
+_q1, _q2 = z3.Reals('q1 q2')
+axiom('quantile.mono', forall([_r, _q1, _q2], z3.Implies(_q1 <= _q2, quantile(_r, _q1) <= quantile(_r, _q2)),
+                              [(quantile(_r, _q1), quantile(_r, _q2))]), ['quantile'], 'numpy')
+axiom('quantile.range', forall([_r, _q1], z3.Implies(z3.And(T.rlen(_r) > 0, 0 <= _q1, _q1 <= 1),
+                                                     z3.And(rmin(_r) <= quantile(_r, _q1), quantile(_r, _q1) <= rmax(_r))),
+                               [quantile(_r, _q1)]), ['quantile'], 'numpy')
+
+
+@reg('np.quantile')
+def _quantile(lib, run, recv, args, kw):
+    s = lib.as_seq(run, args[0])
+    q = kw.get('q', args[1] if len(args) > 1 else None)
+    if s is None or s.kind != 'R' or q is None:
+        raise Unsupported('np.quantile arguments')
+    return Num(quantile(s.term, real(q)))
